@@ -19,6 +19,7 @@ package cli
 import (
 	"errors"
 	"strings"
+	"unicode/utf8"
 
 	"github.com/cosmos/btcutil/base58"
 	"github.com/ethereum/go-ethereum/common"
@@ -30,6 +31,13 @@ func parseAddress(address string) ([]byte, error) {
 	if strings.HasPrefix(address, "0x") {
 		bz := common.FromHex(address)
 		return leftPadBytes(bz)
+	}
+
+	// base58.Decode indexes a 256-entry table with each rune of its input
+	for i := 0; i < len(address); i++ {
+		if address[i] >= utf8.RuneSelf {
+			return nil, errors.New("address contains a non-ASCII character")
+		}
 	}
 
 	bz := base58.Decode(address)
